@@ -2,7 +2,9 @@
    Property theorems only; model in Gw/Merge.v, proofs in Proofs/MergeProofs.v, Proofs/MergeUnion.v. *)
 From Coq Require Import String List Bool Permutation.
 From GW Require Import Base.Res Base.GoStr Gql.Schema Gw.Merge Gw.MergeCheck
-  Proofs.MergeBasics Proofs.MergeProofs Proofs.MergeUnion Proofs.DirEq Proofs.MergeSym.
+  Proofs.MergeBasics Proofs.MergeProofs Proofs.MergeUnion Proofs.DirEq Proofs.MergeSym
+  Proofs.MergeGroup Proofs.MergeWhole Proofs.MergeDirs Proofs.MergeOrder Proofs.MergeResult
+  Proofs.MergeIfaces Proofs.MergePossible.
 Import ListNotations.
 Open Scope string_scope.
 Open Scope list_scope.
@@ -18,11 +20,10 @@ Theorem C10_result_independent_of_order : forall d ds d' ds' o1 o2,
 Proof. exact group_result_order_independent. Qed.
 Print Assumptions C10_result_independent_of_order.
 
-(* Whether construction succeeds (partial: for the incompatibilities the property C09 lists).
+(* Whether construction succeeds, first form (for the incompatibilities the property C09 lists).
    If some order of the services succeeds, no two definitions of one name are incompatible; that
    conclusion does not mention the order, so by C09 no order can fail because of such a pair.
-   Applied directives: see C10_applied_directives_compared_symmetrically and the theorem for two
-   definitions below; for three and more services the statement is decided per case (c10_holds). *)
+   The full statement is C10_success_does_not_depend_on_service_order below. *)
 Theorem C10_success_excludes_incompatibility_partial : forall all out a b,
   merge_types all = Ok out -> Forall wf_def all ->
   In a all -> In b all -> df_name a = df_name b -> is_internal_name (df_name a) = false ->
@@ -30,9 +31,82 @@ Theorem C10_success_excludes_incompatibility_partial : forall all out a b,
 Proof. exact merge_types_ok_no_incompatible. Qed.
 Print Assumptions C10_success_excludes_incompatibility_partial.
 
-(* the full statement, kept visible: *)
-Definition C10_success_statement : Prop := forall srcs srcs' : list schema,
-  Permutation srcs srcs' -> is_ok (merge_schemas srcs) = is_ok (merge_schemas srcs').
+(* Whether construction succeeds: the full statement.  For every list of services and every
+   permutation of it, mergeSchemas succeeds on both or on neither.  The hypothesis is what GraphQL
+   validation guarantees of every loaded source and is executable: field, argument, enum value and
+   union member names distinct within a definition, argument names distinct within an applied
+   directive, one answer per directive name to "is it built in".  The harness evaluates
+   sources_wfb on the sources of every generated case (it is part of the agreement column), so the
+   hypothesis is checked against what the loaders really produce.  The gateway's own names
+   (__Schema, __Type, ...) that every loaded schema carries are covered: they are never compared. *)
+Theorem C10_success_does_not_depend_on_service_order : forall srcs srcs' : list schema,
+  Permutation srcs srcs' -> sources_wfb srcs = true ->
+  is_ok (merge_schemas srcs) = is_ok (merge_schemas srcs').
+Proof. intros srcs srcs' Hp Hw. apply merge_schemas_success_order_independent; [exact Hp|apply sources_wfb_sound; exact Hw]. Qed.
+Print Assumptions C10_success_does_not_depend_on_service_order.
+
+(* ... because success is a condition on unordered pairs: every two definitions of one type name
+   are compatible, every two definitions of one directive are compatible. *)
+Theorem C10_success_is_pairwise_compatibility : forall srcs,
+  sources_wfb srcs = true ->
+  is_ok (merge_schemas srcs) = types_ok (flat_map s_types srcs) && dirs_ok (flat_map s_dirs srcs).
+Proof. intros srcs Hw. apply merge_schemas_ok_iff. apply sources_wfb_sound. exact Hw. Qed.
+Print Assumptions C10_success_is_pairwise_compatibility.
+
+(* The resulting types, for the whole list of definitions mergeSchemas sees: whichever of two
+   orderings is merged, every name is defined in both results or in neither, and the two
+   definitions have the same kind, fields, signatures, interfaces, values and members.  (Names
+   starting with "__" keep the first definition met; every loader supplies the same ones.) *)
+Theorem C10_resulting_types_do_not_depend_on_order : forall all all' out out' k,
+  Permutation all all' -> Forall wf_def all -> is_internal_name k = false ->
+  merge_types all = Ok out -> merge_types all' = Ok out' ->
+  match find_def k out, find_def k out' with
+  | Some a, Some b => same_typesystem a b
+  | None, None => True
+  | _, _ => False
+  end.
+Proof. exact merge_types_result_order_independent. Qed.
+Print Assumptions C10_resulting_types_do_not_depend_on_order.
+
+(* Interfaces implemented (objects and, as repaired, interfaces: DESIGN 6.5): the merged definition
+   of a name implements the same interfaces whichever order the services come in. *)
+Theorem C10_implemented_interfaces_do_not_depend_on_order : forall all all' out out' k a b,
+  Permutation all all' -> Forall wf_def all -> is_internal_name k = false ->
+  merge_types all = Ok out -> merge_types all' = Ok out' ->
+  find_def k out = Some a -> find_def k out' = Some b -> implementing (df_kind a) ->
+  forall i, In i (df_ifaces a) <-> In i (df_ifaces b).
+Proof. exact merge_types_ifaces_order_independent. Qed.
+Print Assumptions C10_implemented_interfaces_do_not_depend_on_order.
+
+(* Possible types of abstract types and the interface implementations registered in the merged
+   schema: the two tables of mergeSchemas' result hold the same entries for every ordering of the
+   services.  types_wfb is executable (names distinct within a definition; only objects and
+   interfaces list interfaces) and evaluated by the harness on the sources of every case. *)
+Theorem C10_possible_types_and_implementations_do_not_depend_on_order : forall srcs srcs' m m' k v,
+  Permutation srcs srcs' -> types_wfb srcs = true ->
+  merge_schemas srcs = Ok m -> merge_schemas srcs' = Ok m' ->
+  is_internal_name k = false -> is_internal_name v = false ->
+  (In v (assoc_l k (m_possible m)) <-> In v (assoc_l k (m_possible m'))) /\
+  (In v (assoc_l k (m_implements m)) <-> In v (assoc_l k (m_implements m'))).
+Proof.
+  intros srcs srcs' m m' k v Hp Hw. destruct (types_wfb_sound srcs Hw) as [A B].
+  apply merged_tables_order_independent; assumption.
+Qed.
+Print Assumptions C10_possible_types_and_implementations_do_not_depend_on_order.
+
+(* Directive definitions: whichever order the definitions of one directive are met in, the merged
+   directive has the same repeatability, the same locations (as a set) and the same arguments:
+   names and types, and default values unless the directive is built in (mergeDirectives does not
+   compare the defaults of @skip, @include, @deprecated on purpose: there the default shown is
+   the first service's; every loader supplies the specification's). *)
+Theorem C10_merged_directive_does_not_depend_on_order : forall b d ds d' ds' o1 o2,
+  merge_dir_group d ds = Ok o1 -> merge_dir_group d' ds' = Ok o2 ->
+  Permutation (d :: ds) (d' :: ds') -> Forall (DW b) (d :: ds) ->
+  dd_name o1 = dd_name d /\ dd_name o2 = dd_name d' /\
+  dd_repeatable o1 = dd_repeatable o2 /\ (forall x, In x (dd_locs o1) <-> In x (dd_locs o2)) /\
+  argdefs_ok b (dd_args o1) (dd_args o2) = true.
+Proof. exact dir_group_result_order_independent. Qed.
+Print Assumptions C10_merged_directive_does_not_depend_on_order.
 
 (* Applied directives (as repaired, see DESIGN 6.5): the n-th application of a directive is compared
    with the n-th application of that directive in the other list, and the outcome does not depend
@@ -78,6 +152,38 @@ Example C10_nonvacuous :
   match merge_group a [b; c], merge_group c [b; a] with
   | Ok x, Ok y => map fd_name (df_fields x) = ["id"; "a"; "b"; "c"] /\ map fd_name (df_fields y) = ["c"; "a"; "id"; "b"] /\
                   df_ifaces x = ["Named"; "Node"] /\ df_ifaces y = ["Named"; "Node"]
+  | _, _ => False
+  end.
+Proof. vm_compute. repeat split. Qed.
+
+(* three services in all six orders: a shared object, a shared interface, a shared enum with an
+   applied directive, a directive declared twice; once compatible and once with one clash *)
+Example C10_orders_nonvacuous :
+  let f n t := {| fd_name := n; fd_desc := ""; fd_type := Some (TNamed t false); fd_args := []; fd_default := None; fd_dirs := [] |} in
+  let d k n fs ifs := {| df_kind := k; df_name := n; df_desc := ""; df_fields := fs; df_ifaces := ifs; df_members := []; df_enums := []; df_dirs := [] |} in
+  let dir := {| dd_name := "tag"; dd_desc := ""; dd_locs := ["FIELD"; "OBJECT"]; dd_args := []; dd_builtin := false; dd_repeatable := false |} in
+  let intro := d KObject "__Type" [f "name" "String"] [] in
+  let s1 := {| s_types := [d KObject "User" [f "id" "ID"; f "a" "Int"] ["Node"]; d KInterface "Node" [f "id" "ID"] []; intro]; s_dirs := [dir] |} in
+  let s2 := {| s_types := [d KObject "User" [f "id" "ID"; f "b" "Int"] []; intro]; s_dirs := [dir] |} in
+  let s3 := {| s_types := [d KInterface "Node" [f "id" "ID"] []; d KObject "User" [f "a" "Int"] []]; s_dirs := [] |} in
+  let bad := {| s_types := [d KObject "User" [f "a" "String"] []]; s_dirs := [] |} in
+  sources_wfb [s1; s2; s3; bad] = true /\
+  map (fun l => is_ok (merge_schemas l)) [[s1; s2; s3]; [s1; s3; s2]; [s2; s1; s3]; [s2; s3; s1]; [s3; s1; s2]; [s3; s2; s1]] = [true; true; true; true; true; true] /\
+  map (fun l => is_ok (merge_schemas l)) [[s1; s2; bad]; [s1; bad; s2]; [bad; s1; s2]] = [false; false; false].
+Proof. vm_compute. repeat split. Qed.
+
+(* an interface that implements another one in one service only; a union and an enum *)
+Example C10_interfaces_nonvacuous :
+  let f n t := {| fd_name := n; fd_desc := ""; fd_type := Some (TNamed t false); fd_args := []; fd_default := None; fd_dirs := [] |} in
+  let d k n fs ifs := {| df_kind := k; df_name := n; df_desc := ""; df_fields := fs; df_ifaces := ifs; df_members := []; df_enums := []; df_dirs := [] |} in
+  let s1 := {| s_types := [d KInterface "Entity" [f "id" "ID"] []; d KInterface "Node" [f "id" "ID"] ["Entity"];
+                           d KObject "User" [f "id" "ID"] ["Node"; "Entity"]]; s_dirs := [] |} in
+  let s2 := {| s_types := [d KInterface "Node" [f "id" "ID"] []; d KObject "Photo" [f "id" "ID"] ["Node"]]; s_dirs := [] |} in
+  types_wfb [s1; s2] = true /\ sources_wfb [s1; s2] = true /\
+  match merge_schemas [s1; s2], merge_schemas [s2; s1] with
+  | Ok a, Ok b => set_eqb (assoc_l "Entity" (m_possible a)) ["Entity"; "Node"; "User"] = true /\
+                  set_eqb (assoc_l "Entity" (m_possible b)) ["Entity"; "Node"; "User"] = true /\
+                  assoc_l "Node" (m_implements a) = ["Entity"] /\ assoc_l "Node" (m_implements b) = ["Entity"]
   | _, _ => False
   end.
 Proof. vm_compute. repeat split. Qed.
